@@ -891,6 +891,7 @@ func init() {
 		return tuple{a[0], span}
 	}
 	natives["github.com/libp2p/go-libp2p-kad-dht/internal.StartSpan"] = startSpan
+	natives["github.com/libp2p/go-libp2p-kad-dht/internal/metrics.ContextWithAttributes"] = func(fr *frame, a []value) value { return a[0] }
 	natives["(github.com/libp2p/go-libp2p-routing-helpers/tracing.Tracer).StartSpan"] = func(fr *frame, a []value) value {
 		return startSpan(fr, a[1:])
 	}
